@@ -97,6 +97,22 @@ CLAIMED = {
                             "probing oracle only (tests, not theorems)."),
         technique="Lean 4 proof over symbolically traced update + limit (per class) + linear probing oracle",
         design="5/C04"),
+    "C14": dict(
+        text=("Lean theorems over any ordered field about the accumulation model: friction and gravity parts equal the "
+              "per-length coefficient times the core length for EVERY plane list (step-size independence, closed forms "
+              "f L rho v^2/(2De), rho g L, via the traced per-step increments being linear in dz); the three parts "
+              "accumulate independently and are non-negative; with the half-open grid test every grid in (0, L] is "
+              "counted by exactly one step for every strictly increasing plane list, so the grid part is (number of "
+              "grids) x (one loss) also when several grids share a step; with the original strict test a grid on a "
+              "plane is counted by no step (the defect, now fixed).  The fold model reproduces the real "
+              "RoddedRegion.calculate_pressure_drop on random step histories and real reactors are swept with "
+              "different step sizes."),
+        note=COMMON_NOTE + ("T1 trace of the increments + T3 fold model with correspondence on real regions (doubles as "
+                            "bit patterns, 1e-10) and an oracle on real reactors (dyadic steps with grids on planes).  "
+                            "Constant properties are assumed for the closed forms; z - dz is exact in the model while the "
+                            "code accumulates z in floating point."),
+        technique="Lean 4 proof (fold/telescoping, double counting) over traced increments + hand fold model + correspondence",
+        design="5/C14"),
     "C15": dict(
         text=("Lean theorems, for any linearly ordered value type and any step history, about the running-maximum fold "
               "the assembly applies after every step: the stored value dominates every cell of every plane, it is "
